@@ -141,6 +141,150 @@ fn run_huge_probe(seed: u64, rep: &mut Report) {
     }
 }
 
+
+// ---------------------------------------------------------------------------
+// a transport that stalls in the middle of a padded packet while the session's own keep-alive task and a data
+// writer are active, then recovers: whatever the session does about the stall (wait, give up and close), the bytes
+// it has put on the transport must stay a sequence of whole frames carrying exactly what was submitted
+
+/// returns (problem, payload frames checked)
+async fn stalled_transport_case(interval_ms: u64, timeout_ms: u64, stall_at_packet: usize, stall_ms: u64, pad_size: u64, writer_idle: bool, seed: u64) -> (Option<(String, String)>, u64) {
+    use crate::engine::{self, PairCfg};
+    use crate::mempipe::{PipeCfg, ReadFault};
+    use crate::prng::Pattern;
+    use bytes::Bytes;
+    use std::time::Duration;
+    let mut text = String::from("stop=60\n0=30-30");
+    for k in 1..60 {
+        text.push_str(&format!("\n{k}={pad_size}-{pad_size}"));
+    }
+    let padding = engine::padding_from(&text).expect("scheme");
+    let hb = anytls_rs::session::SessionHeartbeatConfig { interval: Duration::from_millis(interval_ms), timeout: Duration::from_millis(timeout_ms) };
+    let mut pair = engine::make_pair(PairCfg { c2s: PipeCfg { capacity: 256, ..PipeCfg::plain() }, s2c: PipeCfg::plain(), client_padding: padding.clone(), server_padding: padding, heartbeat: Some(hb) }).await;
+    // server side: drain the stream
+    let received = std::sync::Arc::new(std::sync::Mutex::new(Vec::<u8>::new()));
+    {
+        let received = received.clone();
+        let mut ns = std::mem::replace(&mut pair.new_streams, tokio::sync::mpsc::unbounded_channel().1);
+        tokio::spawn(async move {
+            while let Some(st) = ns.recv().await {
+                let received = received.clone();
+                tokio::spawn(async move {
+                    let mut buf = vec![0u8; 4096];
+                    loop {
+                        let n = {
+                            let mut g = st.reader().lock().await;
+                            match g.read(&mut buf).await {
+                                Ok(0) | Err(_) => break,
+                                Ok(n) => n,
+                            }
+                        };
+                        received.lock().unwrap().extend_from_slice(&buf[..n]);
+                    }
+                });
+            }
+        });
+    }
+    let Ok((st, _rx)) = engine::open_like_client(&pair.client, Bytes::from_static(b"destination")).await else { return (Some(("setup".into(), "open failed".into())), 0) };
+    let pat = Pattern::new(seed, 1, 0);
+    let mut submitted: Vec<u8> = b"destination".to_vec();
+    let mut off = 0u64;
+    let client = pair.client.clone();
+    let c2s = pair.c2s.clone();
+    // the stall: the peer stops draining for stall_ms, starting right after data packet `stall_at_packet` was submitted
+    let mut write_failed = false;
+    for k in 0..8usize {
+        if k == stall_at_packet {
+            c2s.read_fault_now(ReadFault::BlackHole);
+            if writer_idle {
+                // nobody but the session's own tasks writes during the stall (a keep-alive request starts its packet,
+                // fills what room the transport has, and waits in the middle of it)
+                tokio::time::sleep(Duration::from_millis(stall_ms)).await;
+                c2s.clear_read_fault();
+            } else {
+                let c2 = c2s.clone();
+                tokio::spawn(async move {
+                    tokio::time::sleep(Duration::from_millis(stall_ms)).await;
+                    c2.clear_read_fault();
+                });
+            }
+        }
+        let n = 50 + 37 * k;
+        let data = pat.make(off, n);
+        match tokio::time::timeout(Duration::from_secs(3600), client.write_data_frame(st.id(), Bytes::from(data.clone()))).await {
+            Ok(Ok(())) => {
+                submitted.extend_from_slice(&data);
+                off += n as u64;
+            }
+            _ => {
+                // the session gave up on the stalled peer (allowed): nothing more is submitted
+                write_failed = true;
+                submitted.extend_from_slice(&data); // may or may not have reached the wire: a prefix check below
+                break;
+            }
+        }
+        tokio::time::sleep(Duration::from_millis(interval_ms / 3)).await;
+    }
+    tokio::time::sleep(Duration::from_millis(stall_ms + 2 * timeout_ms + 1000)).await; // stall over, everything drained
+    let wire = pair.c2s.log().bytes;
+    let (frames, consumed) = refcodec::parse_all(&wire);
+    let closed = pair.client.is_closed();
+    if consumed != wire.len() && !closed {
+        return (Some(("wire_not_whole_frames".into(), format!("the session is still open but its output stops parsing as frames at offset {consumed} of {} (keep-alive interval {interval_ms} ms, timeout {timeout_ms} ms, packets padded to {pad_size}, peer stalled for {stall_ms} ms at data packet {stall_at_packet})", wire.len()))), 0);
+    }
+    let payload: Vec<u8> = frames.iter().filter(|f| f.cmd == refcodec::PSH && f.sid == st.id()).flat_map(|f| f.data.clone()).collect();
+    let unexpected = frames.iter().find(|f| !f.is_padding() && ![refcodec::SETTINGS, refcodec::SYN, refcodec::PSH, refcodec::HEART_REQ, refcodec::HEART_RESP, refcodec::FIN].contains(&f.cmd));
+    if let Some(f) = unexpected {
+        return (Some(("unexpected_frame_on_wire".into(), format!("frame {} was never submitted", f.brief()))), 0);
+    }
+    let ok = if write_failed || closed { submitted.starts_with(&payload) } else { payload == submitted };
+    if !ok {
+        let at = payload.iter().zip(submitted.iter()).position(|(a, b)| a != b).unwrap_or(payload.len().min(submitted.len()));
+        return (Some(("payload_frames_differ_from_submission".into(), format!("{} payload bytes were submitted, the wire carries {} for the stream and differs at byte {at} (session closed: {closed}; keep-alive interval {interval_ms} ms, timeout {timeout_ms} ms, padding {pad_size}, stall {stall_ms} ms at packet {stall_at_packet})", submitted.len(), payload.len()))), 0);
+    }
+    if !closed && !write_failed {
+        let have = received.lock().unwrap().clone();
+        if have != submitted {
+            return (Some(("payload_lost_at_peer".into(), format!("the peer stream received {} of {} submitted bytes", have.len(), submitted.len()))), 0);
+        }
+    }
+    (None, frames.iter().filter(|f| f.cmd == refcodec::PSH).count() as u64)
+}
+
+fn run_stalled(rep: &mut Report, rng: &mut Rng, n: usize) {
+    for i in 0..n {
+        let interval_ms = *rng.pick(&[500u64, 1000, 2000]);
+        let timeout_ms = interval_ms * *rng.pick(&[1u64, 3, 6]);
+        // mostly stalls that last longer than one keep-alive interval and end before the keep-alive timeout
+        let stall_ms = match rng.below(6) {
+            0 => interval_ms / 2,
+            1 => rng.range(timeout_ms, timeout_ms + interval_ms),
+            _ if timeout_ms > interval_ms + 200 => rng.range(interval_ms + 50, timeout_ms - 50),
+            _ => interval_ms + interval_ms / 2,
+        };
+        let pad_size = *rng.pick(&[300u64, 1000, 3000]);
+        let at = rng.usize(0, 6);
+        let writer_idle = rng.chance(0.7);
+        let seed = rng.next();
+        run::case_begin(&format!("C04 stalled transport {i}"));
+        let r = run::vt_block_on_deadline(std::time::Duration::from_secs(1_000_000), async move { stalled_transport_case(interval_ms, timeout_ms, at, stall_ms, pad_size, writer_idle, seed).await });
+        let case = json!({"kind": "c04-stalled", "interval_ms": interval_ms, "timeout_ms": timeout_ms, "stall_ms": stall_ms, "pad_size": pad_size, "stall_at_packet": at, "data_writer_idle_during_stall": writer_idle, "seed": seed.to_string()});
+        rep.case(Some(hash_str(&case.to_string())));
+        rep.add("stalled_transport_cases", 1);
+        match r {
+            None => rep.violate("padding", "stalled_transport+keep_alive", "case_stuck", "the case did not finish".to_string(), case.clone()),
+            Some((Some((sym, det)), _)) if sym == "setup" => rep.inconclusive(det),
+            Some((Some((sym, det)), _)) => rep.violate("padding", "stalled_transport+keep_alive", &sym, det, case.clone()),
+            Some((None, frames)) => rep.add("stalled_transport_payload_frames_checked", frames),
+        }
+        for p in run::take_thread_panics() {
+            if !run::is_harness_panic(&p) {
+                rep.violate("padding", "stalled_transport+keep_alive", "panic", p, case.clone());
+            }
+        }
+    }
+}
+
 pub fn run(ctx: Ctx) -> Report {
     let n_cases: usize = ctx.tier.pick(320_000, 4_000_000);
     let mut total = run::run_sharded("C04", ctx.shards, move |shard, nshards, rep| {
@@ -179,6 +323,7 @@ pub fn run(ctx: Ctx) -> Report {
                 rep.sample(json!({"scheme": case.scheme.text(), "packets": obs.packets.iter().map(|p| json!({"payload": p.payload_len, "writes": p.writes})).collect::<Vec<_>>()}));
             }
         }
+        run_stalled(rep, &mut rng, ctx.tier.pick(640, 16_000) / nshards);
         run::case_end();
     });
     // sizes in [2^31, 2^63): memory-capped sub-process probes
@@ -191,9 +336,9 @@ pub fn run(ctx: Ctx) -> Report {
 pub fn meta() -> CheckMeta {
     CheckMeta {
         level: "exploration",
-        rule: "each case = a generated padding scheme (any stop, 0-12 entries per line, check marks anywhere, ranges of one, reversed ranges, skipped junk entries, missing lines, sizes 1..200000 weighted to 65528-65550 and multiples of 65535, plus 1000000 and 16777216 in the thorough tier) on a real client Session after the real send_authentication, a single submitter issuing opens / data frames (0..65535 bytes, sized around the scheme's own sizes) / keep-alives for stop+4 packets; the complete recorded client->server byte stream is parsed by the reference codec (must consume every byte) and, with command-0 frames deleted, compared frame by frame with the submission log (Settings as a key/value set). Sizes in [2^31,2^63) run in memory-capped sub-processes where only panic/abort/hang/error is judged. distinct_nontrivial = distinct (scheme text, payload sizes) in which at least one packet was actually shaped (split or padded).".into(),
+        rule: "each case = a generated padding scheme (any stop, 0-12 entries per line, check marks anywhere, ranges of one, reversed ranges, skipped junk entries, missing lines, sizes 1..200000 weighted to 65528-65550 and multiples of 65535, plus 1000000 and 16777216 in the thorough tier) on a real client Session after the real send_authentication, a single submitter issuing opens / data frames (0..65535 bytes, sized around the scheme's own sizes) / keep-alives for stop+4 packets; the complete recorded client->server byte stream is parsed by the reference codec (must consume every byte) and, with command-0 frames deleted, compared frame by frame with the submission log (Settings as a key/value set). Sizes in [2^31,2^63) run in memory-capped sub-processes where only panic/abort/hang/error is judged. distinct_nontrivial = distinct (scheme text, payload sizes) in which at least one packet was actually shaped (split or padded). Stalled transports: a client Session with its keep-alive task (interval 0.5-2 s, timeout 1-6 intervals), every packet padded to 300-3000 bytes, an outbound pipe of 256 bytes whose reader stops draining for a while (mostly longer than one interval and shorter than the timeout) with the data writer idle or in mid-packet, then recovers: at quiescence the recorded wire must still be whole frames, carry no frame that was not submitted (any number of keep-alive requests), and the stream's payload frames must equal the submitted bytes (a prefix of them if the session gave up and closed).".into(),
         assumptions: vec!["single submitter (C11 handles concurrency)".into(), "sizes in (200000, 2^31) sampled at two values only".into(), "payload per data frame <= 65535 (larger chunks are C01's business)".into()],
-        floors: vec![("packets", 1500), ("padding_frames_seen", 300), ("payload_frames_compared", 2000), ("huge_size_probes", 4)],
+        floors: vec![("packets", 1500), ("padding_frames_seen", 300), ("payload_frames_compared", 2000), ("huge_size_probes", 4), ("stalled_transport_cases", 300)],
         exhaustive: false,
     }
 }
